@@ -186,6 +186,19 @@ def run(ctx, replay=None):
                         {'k': 'bin', 'op': '-', 'l': {'k': 'bin', 'op': '+', 'l': var('da'), 'r': var('n')}, 'r': var('da')},
                         {'k': 'bin', 'op': '+', 'l': gen_jump.s(''), 'r': {'k': 'bin', 'op': '-', 'l': var('da'), 'r': var('db')}}])
         cases.append(expr_case(e, g2) if rnd.random() < 0.5 else script_case(e, g2))
+    # fractional offsets: a datetime moves by whole microseconds (0.5 ms + 0.5 ms = 1 ms)
+    fr = [gen_jump.num(1, 2), gen_jump.num(1, 4), gen_jump.num(3, 2), gen_jump.num(1, 8), gen_jump.num(11, 4), gen_jump.num(1), gen_jump.num(2),
+          {'k': 'un', 'op': '-', 'e': gen_jump.num(1, 2)}, {'k': 'un', 'op': '-', 'e': gen_jump.num(3, 4)}]
+    for _ in range(ctx.pick(400, 8000)):
+        da = {'t': 'dt', 'd': rnd.randint(1000, 3600000), 'ms': rnd.randrange(86400000)}
+        g2 = [{'name': 'da', 'val': da}]
+        plus = lambda a, b: {'k': 'bin', 'op': '+', 'l': a, 'r': b}      # noqa: E731
+        x, y, z = rnd.choice(fr), rnd.choice(fr), rnd.choice(fr)
+        e = rnd.choice([{'k': 'bin', 'op': rnd.choice(['==', '<', '>=']), 'l': plus(plus(var('da'), x), y), 'r': plus(var('da'), z)},
+                        {'k': 'bin', 'op': '==', 'l': plus(x, plus(y, var('da'))), 'r': plus(var('da'), z)},
+                        {'k': 'bin', 'op': '+', 'l': gen_jump.s(''), 'r': plus(plus(var('da'), x), y)},
+                        {'k': 'bin', 'op': rnd.choice(['==', '!=', '<']), 'l': plus(var('da'), x), 'r': var('da')}])
+        cases.append(expr_case(e, g2) if rnd.random() < 0.5 else script_case(e, g2))
     # arrays are ordered element by element, the length decides only between a prefix and its extension
     def rarr(d=0):
         return [rnd.choice([0, 1, 2, 3, 'a', None, True]) if d or rnd.random() < 0.85 else rarr(d + 1) for _ in range(rnd.randint(0, 3))]
